@@ -206,10 +206,40 @@ def gen_interleave(c, rng):
         if rng.random() < 0.5:
             a.member, b.member = b.member, a.member
         kind = "stale-last-arg"
+    gfl = [0, 0]
+    if kind == "interleave" and rng.random() < 0.3:
+        # the open multi-value list of one member is closed by something that lives in the OTHER member - the --endvalues
+        # argument (handler flag) or a sub-group argument - and a free value follows: it belongs to the positional argument
+        lst = Arg("vi0", "l", "list")
+        lst.multi, lst.init, lst.member = True, [], 0
+        pos = Arg("s9", None, None, spec="-")
+        pos.init, pos.member = "none", rng.randrange(2)
+        oth = Arg("i0", "n", "num")
+        oth.init, oth.member = "0", 1
+        cfg.args = [lst, oth, pos] if rng.random() < 0.5 else [pos, lst, oth]
+        vals = [str(rng.randint(0, 99)) for _ in range(rng.randint(1, 3))]
+        free = rng.choice(["zz", "out.txt", "7"])
+        exp = {"vi0": [int(v) for v in vals], "s9": free, "i0": 0}
+        if rng.random() < 0.5:
+            cfg.flags = HF["endValues"]
+            gfl[1] = HF["endValues"]
+            words = [rng.choice(["-l", "--list"])] + vals + ["--endvalues", free]
+            kind = "list-closed-by-endvalues-of-other-member"
+        else:
+            sx = Arg("i5", "x", None)
+            sx.init = "0"
+            cfg.subgroup = ("S,sub", 0, [sx])
+            words = [rng.choice(["-l", "--list"])] + vals + [rng.choice(["-S", "--sub"]), "-x", "7", free]
+            exp["i5"] = 7
+            kind = "list-closed-by-sub-group-of-other-member"
+        if rng.random() < 0.3:
+            # one free value too many for the positional argument: refused by both
+            words.append("extra")
+            kind += "+too-many"
     c.meta.update(cfg=cfg, nm=2, exp=exp, runs=[], interleave=True)
     cfg.groups = None
     sid1 = c.add("c08", lambda sid: argh.scenario_text(sid, "single", cfg, words))
-    cfg.groups = [("alpha", 0), ("beta", 0)]
+    cfg.groups = [("alpha", gfl[0]), ("beta", gfl[1])]
     sid2 = c.add("c08", lambda sid: argh.scenario_text(sid, "group", cfg, words))
     cfg.groups = None
     c.meta["runs"].append((kind, "free-value-without-owner", words, sid1, sid2, None))
@@ -359,7 +389,7 @@ def judge(c, results, rep):
     rep.stat("members_%d" % c.meta["nm"])
     for kind, why, words, sid1, sid2, uses in c.meta["runs"]:
         r1, r2 = results[sid1], results[sid2]
-        rep.stat("line." + ("valid" if kind == "valid" else kind if kind in ("interleave", "positional-vs-open-list") else "rule-break"))
+        rep.stat("line." + ("valid" if kind == "valid" else kind if kind in ("interleave", "positional-vs-open-list") or kind.startswith("list-closed") else "rule-break"))
         if kind == "positional-vs-open-list":
             ok1, ok2 = r1.status == "ok", r2.status == "ok"
             if not ok1 or argh.parse_dump("s9", r1.slots.get("s9", "?")) != "none":
@@ -370,7 +400,7 @@ def judge(c, results, rep):
             else:
                 rep.stat("positional_vs_open_list_same")
             continue
-        if kind not in ("valid", "interleave"):
+        if kind not in ("valid", "interleave") and not kind.startswith("list-closed"):
             rep.stat("break." + kind)
         if c.meta["nm"] >= 2 and len(words) >= 2:
             rep.distinct(texts[sid2].split("\n", 1)[1])
@@ -389,7 +419,7 @@ def judge(c, results, rep):
             rep.viol("setup|%s" % ("group" if r2.status == "setup" else "single"), "%s %s | %s %s" % (r1.etype, r1.ewhat, r2.etype, r2.ewhat), tx)
             continue
         ok1, ok2 = r1.status == "ok", r2.status == "ok"
-        want_ok = kind in ("valid", "interleave")
+        want_ok = kind in ("valid", "interleave") or (kind.startswith("list-closed") and not kind.endswith("+too-many"))
         # (b) model
         if want_ok and not ok2:
             rep.viol("group-rejects-valid|%s" % kind, "group: %s %s | single: %s | argv=%r" % (r2.etype, r2.ewhat, r1.status, words), tx)
